@@ -174,6 +174,7 @@ type Machine struct {
 	facts    facts
 	digitCache []digitEntry
 	digitSeq   int
+	zoneChecked map[*Term]bool
 	memo       map[string]bool
 	tlocks     map[*Val]*lockState
 	cur        *thread
